@@ -1922,11 +1922,18 @@ class MacroExpander:
                         current_arg.append(tok)
 
                     pre_expanded = []
+                    needs_expansion = macro_lookup.arg_needs_expansion
                     for i, arg in enumerate(args):
-                        if (
-                            i >= len(macro_lookup.arg_needs_expansion)
-                            or macro_lookup.arg_needs_expansion[i]
-                        ):
+                        # The arguments beyond the named parameters of a
+                        # variadic macro all belong to its last parameter
+                        if macro_lookup.variadic and i >= len(needs_expansion):
+                            needed = needs_expansion[-1]
+                        else:
+                            needed = (
+                                i >= len(needs_expansion)
+                                or needs_expansion[i]
+                            )
+                        if needed:
                             arg_expansion = self.expand(
                                 arg,
                                 ident=None,
